@@ -5,7 +5,15 @@ CONSTANT Depth
 Tops == LET RECURSIVE H(_) H(R) == IF R = {} THEN <<>> ELSE LET x == CHOOSE y \in R : TRUE IN <<x>> \o H(R \ {x}) IN H(TopTypes)
 Emit(tn) == LET vs == Var(NfsTypes, tn, Depth) IN
             \A j \in 1..Len(vs) : PrintT("VEC " \o ToJson([type |-> tn, val |-> vs[j], bytes |-> Enc(NfsTypes, tn, vs[j])]))
+(* the list-shaped results keep their names, handles and attributes several levels further down than any other type: *)
+(* for them the variations go deeper (every field of an entry, first and second entry of a list)                        *)
+Lists == {"READDIR3res", "READDIRPLUS3res", "exportsopt3", "mountopt3"} \cap TopTypes
+EmitDeep(tn) == LET vs == Var(NfsTypes, tn, Depth + 4)
+                    shallow == Var(NfsTypes, tn, Depth) IN
+                \A j \in 1..Len(vs) : (\E k \in 1..Len(shallow) : shallow[k] = vs[j])
+                                       \/ PrintT("VEC " \o ToJson([type |-> tn, val |-> vs[j], bytes |-> Enc(NfsTypes, tn, vs[j])]))
 ASSUME \A i \in 1..Len(Tops) : Emit(Tops[i])
+ASSUME \A i \in 1..Len(Tops) : Tops[i] \in Lists => EmitDeep(Tops[i])
 ASSUME PrintT("PROCS " \o ToJson(Procs))
 VARIABLE x
 Init == x = 0
